@@ -26,3 +26,7 @@ def run(tier):
     r.seconds = time.time() - t0
     r.vacuity = []
     return reps + [r] + C13.returns_fresh_reports(FRESH)
+
+
+def replay(prop, ob):
+    return K.replay(ob)
